@@ -106,6 +106,14 @@ class C08(Check):
         # the peer keeps ITS side of the connection up after the DPR/DPA exchange and leaves the closing
         # to the node (which lingers for SLEEP_TIMER and then closes by itself)
         scn["peer_lingers"] = rng2.random() < 0.4
+        # a long life: several more connections of the same object after the restart (coarse ticks keep it cheap)
+        scn["cycles"] = 0
+        if rng2.random() < 0.12:
+            scn["cycles"] = rng2.choice([3, 5, 8])
+            scn["knobs"]["STATE_MACHINE_TICKER"] = max(scn["knobs"]["STATE_MACHINE_TICKER"], 0.005)
+            scn["knobs"]["SLEEP_TIMER"] = min(scn["knobs"].get("SLEEP_TIMER", 0.3), 0.3)
+            scn["horizon"] = 400.0
+            scn["max_steps"] = scn["max_steps"] + 6_000_000
         if scn["peer_lingers"] and scn["cause"] in ("local_close", "peer_dpr") and rng2.random() < 0.6:
             # ... and the clock is stepped while the node lingers
             scn["clock_jumps"] = [{"t": 0.002 + rng2.random() * 0.8 * scn["knobs"].get("SLEEP_TIMER", 0.3),
@@ -503,6 +511,40 @@ class C08(Check):
                 viol("the same node object can be started again", "restart-failed",
                      {"state": w.state(), "start_call": {"ok": rec["ok"], "exc": rec["exc"]},
                       "threads": [(t.role, t.state, repr(t.wait_on)) for t in w.lib_threads() if t.state != "done"]})
+                return
+            # ---- a long life: the same object goes through several more connections, each ended another way --
+            for cyc in range(scn.get("cycles", 0)):
+                how = ("peer_dpr", "local_close", "peer_eof", "peer_rst")[(cyc + scn.get("index", 0)) % 4]
+                cons = w.start_consumer("consumer_c%d" % cyc)
+                sim.sleep(4 * tick)
+                w.peer.send(C.app_request(APP_ID, 316, 0x6100 + cyc, 0x6200 + cyc, "p;6;%d" % cyc, PEER_HOST, PEER_REALM, NODE_REALM))
+                sim.sleep(6 * tick)
+                t_end = sim.now
+                if how == "peer_dpr":
+                    w.peer.send(C.dpr(PEER_HOST, PEER_REALM, hbh=0x7700 + cyc, e2e=0x8800 + cyc))
+                elif how == "local_close":
+                    w.call("close_c%d" % cyc, w.node.close)
+                else:
+                    w.peer.close(reset=(how == "peer_rst"))
+
+                def released_c():
+                    return w.state() == "Closed" and all(t.state == "done" for t in w.lib_threads()) and \
+                        all(s_.state == "closed" and not s_.selectors for s_ in w.node_socks()) and cons["t1"] is not None
+                sim.wait_until(released_c, D, poll=D / 60.0)
+                st["cycles_done"] = cyc + 1
+                if not released_c():
+                    viol("every way a connection ends leaves the node closed, released and restartable (later connections of the same object)",
+                         "cycle-not-released",
+                         {"cycle": cyc + 2, "how": how, "state": w.state(), "consumer_returned": cons["t1"] is not None,
+                          "threads": [(t.role, t.state, repr(t.wait_on)) for t in w.lib_threads() if t.state != "done"][:6],
+                          "sockets": [(s_.name, s_.state) for s_ in w.node_socks() if s_.state != "closed"][:4]})
+                    return
+                w.cer_ids = (0x120 + cyc, 0x230 + cyc)
+                rec = w.start_node()
+                if not w.wait_state(("I-Open", "R-Open"), 10.0 + D):
+                    viol("the same node object can be started again", "restart-failed",
+                         {"cycle": cyc + 2, "state": w.state(), "start_call": {"ok": rec["ok"], "exc": rec["exc"]}})
+                    return
 
         sim.run_main(main)
         if not st["reached_point"]:
